@@ -22,7 +22,7 @@ ASSUMPTIONS = ["The quantifier of C02 is the whole per-site input space; this ch
 
 def gen(seed, idx, tier):
     rnd = substream(seed, idx, "c02")
-    flavour = rnd.choice(["generic", "generic", "strong", "tinydt", "bigdt", "screen"])
+    flavour = rnd.choice(["generic", "generic", "strong", "tinydt", "bigdt", "screen", "randinit", "randinit"])
     p = dict(refuse=0.2, steps=(3, 20))
     if flavour == "strong":
         p.update(dt_choices=[0.05, 0.2, 1.0], adaptive=True)
@@ -34,7 +34,29 @@ def gen(seed, idx, tier):
         p.update(screening=True, steps=(2, 6), n_terminals=0, field_kinds=("const", "ramp"))
     scn = scen.gen_physics(rnd, **p)
     scn["meta"]["flavour"] = flavour
+    if flavour == "randinit":
+        # seeded initial state through the public psi_init attribute: |psi| > 1, exact zeros, random phases
+        scn["psi_init"] = {"seed": rnd.randrange(10**6), "amp": rnd.choice([0.5, 1.0, 1.5, 3.0]), "zeros": rnd.choice([0.0, 0.1, 0.5]), "phases": rnd.random() < 0.7}
     return scn
+
+
+def psi_hook(spec):
+    import numpy as np
+
+    def hook(solver):
+        rs = np.random.default_rng(spec["seed"])
+        n = len(solver.psi_init)
+        mag = spec["amp"] * rs.random(n)
+        ph = rs.uniform(-np.pi, np.pi, n) if spec["phases"] else np.zeros(n)
+        psi = mag * np.exp(1j * ph)
+        psi[rs.random(n) < spec["zeros"]] = 0.0
+        keep = np.asarray(solver.operators.fixed_sites, dtype=int) if solver.options.terminal_psi is not None else np.array([], dtype=int)
+        old = solver.psi_init.copy()
+        solver.psi_init = psi
+        if len(keep):
+            solver.psi_init[keep] = old[keep]
+
+    return hook
 
 
 def run(scn):
@@ -44,7 +66,8 @@ def run(scn):
         [ck],
         lambda h, c: ck.calls >= 3,
         lambda h: (scn["device"]["layer"]["gamma"], scn["meta"].get("flavour"), ck.refusals > 0),
-        extra=lambda h, c: {"calls": ck.calls, "refusals": ck.refusals, "deadband": ck.deadband, "max_identity_rel": ck.max_id, "max_modsq_rel": ck.max_mod},
+        extra=lambda h, c: {"calls": ck.calls, "refusals": ck.refusals, "deadband": ck.deadband, "overflow_skipped": ck.overflow, "max_identity_rel": ck.max_id, "max_modsq_rel": ck.max_mod},
+        psi_init_hook=psi_hook(scn["psi_init"]) if scn.get("psi_init") else None,
     )
 
 
